@@ -620,7 +620,13 @@ loopX0:    \
     CMPQ len, $0   \
     JLE cryptoBlocksDone     \
     fillCounterX1()   \
-    cryptoBlockAsmRemain(rk,tmp,src,reg3,reg1,reg2,reg3,blockCount)  \
+    MOVQ $0, (tmp) \                  // the 1..15 remaining input bytes go through the scratch block:
+    MOVQ $0, 8(tmp) \                 // a 16-byte load at src would read past the end of the input
+    MOVQ len, reg2 \
+    copyAsm(tmp,src,len,reg3)  \
+    SUBQ reg2, tmp \
+    MOVQ reg2, len \
+    cryptoBlockAsmRemain(rk,tmp,tmp,reg3,reg1,reg2,reg3,blockCount)  \
     clearRight(tmp,len,reg3,reg2) \
     MOVQ len, reg2 \
     copyAsm(dst,tmp,len,reg3)  \
